@@ -31,6 +31,8 @@ JudgeDec(e) ==
   LET c == CfgOf(e)  ct == HexToBytes(e.ct)  out == HexToBytes(e.out)  aad == HexToBytes(e.aad)
       d == StreamDecrypt(c, aad, ct)
   IN IF ~SConfigOK(c) THEN <<"[driver] configuration outside the documented parameter space", e.alg>>
+     ELSE IF e.panic THEN <<"[property] the decrypting reader panicked", "no panic">>
+     ELSE IF e.err \notin {"EOF", "ERR"} THEN <<"[property] the decrypting reader never reports the end of the stream", "EOF or error">>
      ELSE IF d[1] THEN
        IF e.err = "EOF" /\ out = d[2] THEN <<>>
        ELSE <<"[property] a ciphertext of the documented format is not decrypted to its plaintext and EOF", BytesToHex(d[2])>>
